@@ -29,7 +29,8 @@ CONSTANTS Procs, NameOf,      \* process -> the counter name it increments (once
           InitSlots,          \* slots already allocated (and linked, foreign names) at the start
           MaxSlots, MaxPages,
           MaxTries,           \* remap attempts before giving up (10 in the code)
-          AllowKill
+          AllowKill,
+          FixF16              \* repair: a duplicate scan that leaves the mapping gives its record up and starts over
 
 DEAD == -1
 NoRec == [name |-> "none", len |-> FALSE, next |-> 0, val |-> 0]
@@ -184,8 +185,8 @@ KCas(p) ==                                 \* cas32(headOff, head, start)
 (* where the duplicate scan goes after reaching element o; "FAIL" = entryAt fails (errCorrupt) *)
 ScanNext(p, o, oldh) == IF o = oldh THEN "K_store"
                         ELSE IF o # 0 /\ o # DEAD /\ Visible(p, o) THEN "S_len" ELSE "FAIL"
-ScanGo(p, nxt) == /\ pc' = Set(pc, p, IF nxt = "FAIL" THEN "Done" ELSE nxt)
-                  /\ err' = IF nxt = "FAIL" THEN Set(err, p, "corrupt") ELSE err
+ScanGo(p, nxt) == /\ pc' = Set(pc, p, IF nxt = "FAIL" THEN (IF FixF16 THEN "K_giveup" ELSE "Done") ELSE nxt)
+                  /\ err' = IF nxt = "FAIL" /\ ~FixF16 THEN Set(err, p, "corrupt") ELSE err
 KReload(p) ==                              \* old = head; head = load32(headOff); scan the new elements
   /\ pc[p] = "K_reload"
   /\ old' = Set(old, p, lhead[p])
@@ -203,6 +204,11 @@ SNext(p) == LET s == off[p]  nx == rec[s].next IN
      THEN /\ vslot' = Set(vslot, p, s) /\ pc' = Set(pc, p, "K_dead") /\ UNCHANGED <<off, err>>
      ELSE /\ UNCHANGED vslot /\ off' = Set(off, p, nx) /\ ScanGo(p, ScanNext(p, nx, old[p]))
   /\ UNCHANGED <<shared, alive, rm, ph, maplen, lhead, lim, start, tries, old, vold, done>>
+KGiveUp(p) ==                              \* repaired code: next.Store(^0) on our record, then newCounter again (its lookup remaps)
+  /\ pc[p] = "K_giveup"
+  /\ rec' = [rec EXCEPT ![start[p]].next = DEAD]
+  /\ pc' = Set(pc, p, "L_head") /\ ph' = Set(ph, p, 1) /\ tries' = Set(tries, p, 0)
+  /\ UNCHANGED <<size, limit, head, alive, rm, maplen, lhead, off, lim, start, old, vslot, vold, err, done>>
 KDead(p) ==                                \* next.Store(^0): mark ours as dead, use the other record
   /\ pc[p] = "K_dead"
   /\ rec' = [rec EXCEPT ![start[p]].next = DEAD]
@@ -230,7 +236,7 @@ Kill(p) == /\ AllowKill /\ alive[p] /\ pc[p] # "Done"
 Step(p) == /\ alive[p]
            /\ \/ PStart(p) \/ LHead(p) \/ LLen(p) \/ LNext(p) \/ MLimit(p) \/ MOpen(p) \/ MStat(p)
               \/ RLimit(p) \/ EStat(p) \/ EWrite(p) \/ EOpen(p) \/ EMap(p) \/ RCas(p) \/ WLen(p)
-              \/ KStore(p) \/ KCas(p) \/ KReload(p) \/ SLen(p) \/ SNext(p) \/ KDead(p)
+              \/ KStore(p) \/ KCas(p) \/ KReload(p) \/ SLen(p) \/ SNext(p) \/ KGiveUp(p) \/ KDead(p)
               \/ VLoad(p) \/ VCas(p)
 Next == \E p \in Procs : Step(p) \/ Kill(p)
 Spec == Init /\ [][Next]_vars
